@@ -35,6 +35,8 @@ type ExecOpts struct {
 	StopOnDiverge bool
 	OnBlock       func(e *execState, bo *blockObs) `json:"-"`
 	KeepTrace     bool
+	Project       bool // C19: execute the history restricted to one auction on a second replica and compare (project.go)
+	collectFrames bool
 }
 
 type Stats struct {
@@ -74,6 +76,7 @@ type RunResult struct {
 	TraceHash  string
 	TraceLines []string
 	HarnessErr string
+	frames     []projFrame
 }
 
 func (r *RunResult) addV(prop, rule, key, detail string, blk, tx int) {
@@ -148,6 +151,7 @@ type execState struct {
 	lin         *linRecorder
 	modelOff    bool // model and implementation diverged earlier in this run
 	queryRng    uint64
+	frames      []projFrame
 }
 
 func (e *execState) logf(format string, a ...interface{}) {
@@ -499,6 +503,12 @@ func Execute(s *Schedule, opt ExecOpts) (res *RunResult) {
 	}
 	if opt.Lin {
 		e.linCheck()
+	}
+	if opt.collectFrames {
+		res.frames = e.frames
+	}
+	if opt.Project {
+		e.projectionCheck()
 	}
 	e.finish(prev)
 	return
@@ -993,6 +1003,9 @@ func (e *execState) runBlock(bi int, blk *Block, prev *Snap) (*blockObs, bool) {
 		e.checkQueries(bo)
 	}
 	e.noteState(bo)
+	if e.opt.Project || e.opt.collectFrames {
+		e.recordFrame(bo)
+	}
 	if e.opt.OnBlock != nil {
 		e.opt.OnBlock(e, bo)
 	}
